@@ -6,16 +6,28 @@
 (* is exported once, prefixed by a shortest call path to its pre-state, for *)
 (* replay into the real library.                                           *)
 (***************************************************************************)
-EXTENDS Api, Json
+EXTENDS Api, Printer, Json
 
-CONSTANTS MaxCalls, Pre, Fail2
+CONSTANTS MaxCalls, Pre, Fail2, Sch
 
 VARIABLES root, depth, nv2, hist, last
 
 vars == <<root, depth, nv2, hist, last>>
 View == <<root, depth, nv2>>
 
+(* Sch = 1: every option kind; Sch = 2: the same layout with printable kinds *)
+(* only (the pointer and the function are replaced), for the print/parse     *)
+(* round trip of C05                                                        *)
 ApiSchema ==
+  IF Sch = 2 THEN
+  << DInt("i", "7"), DStr("s", "d"), DIntList("l", <<"1","2">>), DStrList("sl", <<>>),
+     DBool("b", "false"), DFloat("f", "1.5"),
+     DSec("t", {"MULTI","TITLE"}, << DInt("x", "5"), DStr("p", "z"), DStrList("tl", <<"u">>) >>),
+     DSec("m", {"MULTI"}, << DInt("x", "5") >>),
+     DSec("sec", {}, << DInt("x", "5"), DIntList("l", <<>>) >>),
+     DInt("vi", "1"), DStr("vs", "q"),
+     DBool("fn", "true") >>
+  ELSE
   << DInt("i", "7"), DStr("s", "d"), DIntList("l", <<"1","2">>), DStrList("sl", <<>>),
      DBool("b", "false"), DFloat("f", "1.5"),
      DSec("t", {"MULTI","TITLE"}, << DInt("x", "5"), DPtr("p"), DStrList("tl", <<"u">>) >>),
@@ -32,7 +44,7 @@ PreToks ==
      TkStr("l"), TkP("="), TkP("{"), TkStr("5"), TkP(","), TkStr("7"), TkP("}"),
      Tk("cmt", "note", 0), TkStr("s"), TkP("="), TkStr("x"), TkEof >>
 
-InitRoot == [title |-> Null, opts |-> InitOpts(ApiSchema)]
+InitRoot == MkSec(Null, InitOpts(ApiSchema))
 PreRun == PRun(PInit(InitRoot, ParseCfg(FALSE, TRUE, FALSE, 0, 0, 0), "buf", FALSE, 0, 0, 0), PreToks)
 
 Env == [nocase |-> FALSE, nv2 |-> nv2, fail2 |-> Fail2, rw2 |-> 0]
@@ -74,6 +86,15 @@ Calls ==
     Call("setint", T1, "x", 0, "8", <<>>),      Call("addlist", T1, "tl", 0, "", <<"z">>),
     Call("setint", SEC, "x", 0, "6", <<>>),     Call("addlist", SEC, "l", 0, "", <<"1">>),
     Call("setint", <<>>, "vi", 0, "4", <<>>),   Call("setstr", <<>>, "vs", 0, "r", <<>>) }
+  \cup (IF Sch = 2
+          THEN { Call("setstr", <<>>, "s", 0, "a\"b\\c", <<>>), Call("setstr", <<>>, "s", 0, "${HOME}", <<>>),
+                 Call("setstr", <<>>, "s", 0, "", <<>>),
+                 Call("addtsec", <<>>, "t", 0, "q\"r", <<>>), Call("addtsec", <<>>, "t", 0, "two words", <<>>),
+                 Call("setstr", T1, "p", 0, "# /* x */", <<>>) }
+          ELSE {})
+
+(* a NULL string has no spelling in the configuration language: not part of the round trip *)
+CallsHere == IF Sch = 2 THEN {c \in Calls : c.val # Null} ELSE Calls
 
 Init ==
   /\ root = IF Pre = 1 THEN RootOf(PreRun) ELSE InitRoot
@@ -94,7 +115,7 @@ Do(c) ==
         /\ hist' = Append(hist, [call |-> c, exp |-> Expected(r)])
         /\ last' = [call |-> c, pre |-> root, ret |-> r.ret]
 
-Next == \E c \in Calls : Do(c)
+Next == \E c \in CallsHere : Do(c)
 Spec == Init /\ [][Next]_vars
 
 (* ------------------------------------------------------------------ *)
@@ -151,10 +172,23 @@ P_C07_Ledger ==
          /\ S2S(fr) \cap S2S(PtrsOfSec(root')) = {}
          /\ S2S(PtrsOfSec(root')) \cup S2S(fr) = S2S(PtrsOfSec(root)) ]_vars
 
+(* C05: the printed configuration, read as the tokens the scanner will see, *)
+(* is accepted under the same schema and denotes the same configuration    *)
+(* (sections, titles, list lengths, values; floats to printed precision;   *)
+(* annotations when annotation support is on)                              *)
+P_C05_RoundTrip ==
+  Sch = 2 =>
+    LET q == PRun(PInit(InitRoot, ParseCfg(FALSE, TRUE, FALSE, 0, 0, 0), "buf", FALSE, 0, 0, 0), PrintToks(root))
+    IN /\ q.status = "ok"
+       /\ RtSec(RootOf(q)) = RtSec(root)
+       (* and printing the re-parsed configuration reproduces the text *)
+       /\ PrintCfg(RootOf(q), 0) = PrintCfg(root, 0)
+
 (* export of transitions for leg A *)
 (* the full prediction is exported for the last call only: every earlier   *)
 (* call of the path is the last call of its own behaviour                  *)
 EmitT == PrintT(<<"BEH", ToJson([pre |-> Pre, fail2 |-> Fail2,
+            printed |-> IF Sch = 2 THEN [i \in 1..Len(PrintCfg(root', 0)) |-> PrintCfg(root', 0)[i].text] ELSE <<>>,
             calls |-> [i \in 1..Len(hist') |->
                          IF i = Len(hist') THEN hist'[i]
                          ELSE [call |-> hist'[i].call, exp |-> [ret |-> hist'[i].exp.ret]]]])>>)
